@@ -70,6 +70,7 @@ type world struct {
 	libListeners []*recListener
 	lateAccept   atomic.Bool // see recListener.Accept
 	realTime     bool        // the check does not run in a synctest bubble
+	slow         atomic.Int64 // ns by which the dial / listen seams return late (0: at once)
 }
 
 // recListener records the connections the library accepts.
@@ -139,9 +140,15 @@ func newWorld(o worldOpt) (*world, error) {
 			w.lmu.Lock()
 			w.libConns = append(w.libConns, c)
 			w.lmu.Unlock()
+			if d := w.slow.Load(); d > 0 {
+				time.Sleep(time.Duration(d)) // the connection is established, the dialer returns late
+			}
 			return c, nil
 		}),
 		hsmsss.WithListener(func(ctx context.Context, network, address string) (net.Listener, error) {
+			if d := w.slow.Load(); d > 0 {
+				time.Sleep(time.Duration(d)) // a slow bind: whoever asked for it may have been closed meanwhile
+			}
 			l, err := w.nw.Listen(w.addr)
 			if err != nil {
 				return nil, err
@@ -327,6 +334,7 @@ type s1World struct {
 	lmu          sync.Mutex
 	libConns     []*netsim.Conn
 	libListeners []*netsim.Listener
+	slow         atomic.Int64 // see world.slow
 }
 
 // s1RecListener records the connections a SECS-I library accepts.
@@ -381,9 +389,15 @@ func newS1World(o s1Opt) (*s1World, error) {
 			w.lmu.Lock()
 			w.libConns = append(w.libConns, c)
 			w.lmu.Unlock()
+			if d := w.slow.Load(); d > 0 {
+				time.Sleep(time.Duration(d)) // the connection is established, the dialer returns late
+			}
 			return c, nil
 		}),
 		secs1.WithListener(func(ctx context.Context, network, address string) (net.Listener, error) {
+			if d := w.slow.Load(); d > 0 {
+				time.Sleep(time.Duration(d))
+			}
 			l, err := w.nw.Listen(w.addr)
 			if err != nil {
 				return nil, err
